@@ -114,6 +114,13 @@ pub fn fuzz_stage(
                     if let Ok(s) = std::fs::read_to_string(&f) {
                         if let Ok(v) = serde_json::from_str::<serde_json::Value>(&s) {
                             if let Ok(case) = serde_json::from_value::<Case>(v["case"].clone()) {
+                                // the in-target oracle has no second parser: apply C07's domain
+                                // guard here (an input swc accepted but node rejects is no module)
+                                if oracle == "C07" {
+                                    if let Verdict::Discard(_) = crate::props::c07::full_check(&case, ctx) {
+                                        continue;
+                                    }
+                                }
                                 found = Some(Violation {
                                     kind: v["kind"].as_str().unwrap_or("fuzz").to_string(),
                                     detail: v["detail"].clone(),
